@@ -85,7 +85,7 @@ def one(ctx, data, meta, html, tmpdir, rng, edits=True, reads=None):
             warnings.simplefilter('ignore')
             try:
                 with docx2python(io.BytesIO(data), html=html) as d:
-                    rd = d.docx_reader; expect = {}; marks = []
+                    rd = d.docx_reader; expect = {}; marks = []; held = []
                     rd.save(os.path.join(tmpdir, 'o0.docx'))          # an earlier save of the same reader must not freeze what later saves write
                     seen = set()
                     for f in rd.content_files():
@@ -100,7 +100,7 @@ def one(ctx, data, meta, html, tmpdir, rng, edits=True, reads=None):
                             return False
                         ts = [t for t in root.iter() if src.ptag(t) == 'w:t' and not hidden(t)]
                         for t in rng.sample(ts, min(len(ts), 2)):
-                            mk = 'EDIT%d' % rng.randrange(10 ** 6); t.text = mk; marks.append((f.Type, mk))
+                            mk = 'EDIT%d' % rng.randrange(10 ** 6); t.text = mk; marks.append((f.Type, mk)); held.append((f, root, t))
                         re_ = f.rels_element
                         if re_ is not None:
                             for r_ in re_:
@@ -118,6 +118,17 @@ def one(ctx, data, meta, html, tmpdir, rng, edits=True, reads=None):
                                 if isinstance(r_.tag, str) and r_.get('TargetMode') == 'External': r_.set('Target', 'http://edited-nc/%d' % rng.randrange(1000)); ctx.count('edited relationship of a non-content part')
                             expect[f._rels_path] = etree.tostring(re_)
                     rd.save(out3)
+                    # a second round of edits through the SAME element objects, saved to another path: the second file holds the second edits
+                    out4 = os.path.join(tmpdir, 'o4.docx'); expect2 = {}; marks2 = []
+                    for f, root, t in held:
+                        mk = 'AGAIN%d' % rng.randrange(10 ** 6); t.text = mk; marks2.append(mk); expect2[f.path] = root
+                    if held:
+                        rd.save(out4)
+                        z4 = zipfile.ZipFile(out4)
+                        for n, root in expect2.items():
+                            if n in z4.namelist() and c14n(z4.read(n)) != c14n(etree.tostring(root)):
+                                ctx.fail('an edited element tree is not what the saved file contains', {**case, 'member': n, 'save': 'second, after editing again through the same elements'}, None); good = False
+                        z4.close(); ctx.count('second edit + second save')
                 z3 = zipfile.ZipFile(out3)
                 for n, want in expect.items():
                     if n in z3.namelist() and c14n(z3.read(n)) != c14n(want):
